@@ -582,6 +582,9 @@ pub proof fn lemma_flex_out_bound(d: real, ms: real)
     }
 }
 
+// the value preceding the window of a change-based view (Rsi, MyRSI): the first value seeds it, afterwards it is the value that leaves the window
+pub open spec fn rsi_pred(w: Seq<T>, pred: T, y: T, n: nat) -> T { if w.len() == 0 { y } else if w.len() >= n { w[0] } else { pred } }
+
 // ---------- Kendall pair sums (NoiseEliminationTechnology) ----------
 // xs[c] (c >= 1) is the value c-1 steps back from the newest (xs[1] newest); xs[0] is unused
 pub open spec fn sgn3(d: real) -> real { if d > 0real { 1real } else if d < 0real { -1real } else { 0real } }
